@@ -2236,6 +2236,97 @@ func ruleSharedExprNoRewrite(c *Ctx, rule string) {
 		c.Check(rule, fnName(fn)+" | an expression carried over to later members", l.Pos(carried.Pos()), raises, "the function raises the shared-expression flag",
 			"the function compiles one expression node for several members of a declaration group but never raises the flag that stops compile-time rewriting: the node is rewritten in place while the first member is compiled")
 	}
+	// (c) a compiler forked for the same file (a function literal inside the
+	// repeated expression) inherits the flag
+	if fork := l.Method(modPath, "Compiler", "fork"); fork != nil && len(flags) > 0 {
+		inherits := false
+		eachInstr(fork, func(ins ssa.Instruction) {
+			st, ok := ins.(*ssa.Store)
+			if !ok {
+				return
+			}
+			fa, ok := st.Addr.(*ssa.FieldAddr)
+			if !ok || !flags[fa.Field] {
+				return
+			}
+			if ld, ok := st.Val.(*ssa.UnOp); ok {
+				if sfa, ok := ld.X.(*ssa.FieldAddr); ok && sfa.Field == fa.Field && sfa.X == ssa.Value(fork.Params[0]) {
+					inherits = true
+				}
+			}
+		})
+		n++
+		c.Check(rule, "Compiler.fork | shared-expression flag", l.Pos(fork.Pos()), inherits, "the forked compiler inherits the flag",
+			"a compiler forked for a function literal starts with the shared-expression flag cleared: the body of a function literal inside an implicitly repeated const expression is folded in place with the first member's resolution of its names (`const x = 1; const ( f = func() { return x + 1 }; x; g ); g()` returns 2 optimized and fails unoptimized)")
+	}
+	// (d) the optimizer's own pass over a const declaration does not rewrite the
+	// values of a group with an implicit repetition: every store into an element
+	// of ValueSpec.Values made by the optimizer is reached only when a flag
+	// computed from the group (a bool carried out of a loop, or the result of a
+	// helper) is false
+	if _, fValues := l.structField(parserPath, "ValueSpec", "Values"); fValues >= 0 {
+		optT := l.NamedType(modPath, "SimpleOptimizer")
+		for _, fn := range l.RepoFuncs(func(pp string) bool { return pp == modPath }) {
+			root := fn
+			for root.Parent() != nil {
+				root = root.Parent()
+			}
+			r := root.Signature.Recv()
+			if r == nil || optT == nil {
+				continue
+			}
+			rt := r.Type()
+			if p, ok := rt.(*types.Pointer); ok {
+				rt = p.Elem()
+			}
+			if !types.Identical(rt, optT) {
+				continue
+			}
+			eachInstr(fn, func(ins ssa.Instruction) {
+				st, ok := ins.(*ssa.Store)
+				if !ok {
+					return
+				}
+				ia, ok := st.Addr.(*ssa.IndexAddr)
+				if !ok {
+					return
+				}
+				ld, ok := ia.X.(*ssa.UnOp)
+				if !ok {
+					return
+				}
+				if _, ok := isFieldAddrOf(ld.X, parserPath, "ValueSpec", fValues); !ok {
+					return
+				}
+				n++
+				guarded := false
+				for _, g := range guardEdges(st.Block()) {
+					switch cnd := g.If.Cond.(type) {
+					case *ssa.Phi:
+						if b, ok := cnd.Type().Underlying().(*types.Basic); ok && b.Kind() == types.Bool && !g.Truth {
+							guarded = true
+						}
+					case *ssa.Call:
+						if b, ok := cnd.Type().Underlying().(*types.Basic); ok && b.Kind() == types.Bool && !g.Truth {
+							guarded = true
+						}
+					case *ssa.Parameter:
+						// the flag computed by the caller and handed to a helper
+						if b, ok := cnd.Type().Underlying().(*types.Basic); ok && b.Kind() == types.Bool && !g.Truth {
+							guarded = true
+						}
+					}
+				}
+				key := fnName(fn) + " | value of a declaration rewritten by the optimizer"
+				if k := countKey(key); k > 1 {
+					key += fmt.Sprintf(" #%d", k)
+				}
+				c.Check(rule, key, l.Pos(st.Pos()), guarded, "only when the group has no implicit repetition",
+					"the optimizer's pass rewrites the value of a declaration in place without having established that the const group has no implicitly repeated member: a repeated `int(\"5\")` is folded with the first member's meaning of `int` (`const ( a = int(\"5\"); int; b )` gives [5, 5, 5] optimized and NotCallableError unoptimized)")
+			})
+		}
+		resetKeyCount()
+	}
 	if n == 0 {
 		c.Und(rule, "compile-time rewriting", "-", "no call of the compile-time folder found")
 	}
@@ -2891,4 +2982,56 @@ func ruleRollbackBoundary(c *Ctx, rule string) {
 	if n == 0 {
 		c.Und(rule, "rollback of the module store", "-", "no function restores the module count from a parameter and deletes entries")
 	}
+}
+
+// ---- C01/lookup-every-scope ----------------------------------------------------------------------------------------------------
+// The name lookup the optimizer's constant substitution relies on visits EVERY
+// enclosing symbol table, innermost first: the loop steps from a table to the
+// table in its `parent` field.  A step that skips tables (block tables, the
+// enclosing function's table) misses the definition that hides an outer literal
+// constant - a parameter, a local, a loop variable of the same name - and the
+// optimizer substitutes the constant for it.
+func ruleLookupEveryScope(c *Ctx, rule string) {
+	l := c.L
+	fb := l.Method(modPath, "SymbolTable", "findByName")
+	_, fParent := l.structField(modPath, "SymbolTable", "parent")
+	if !c.Anchor(rule, "SymbolTable.findByName / SymbolTable.parent", fb != nil && fParent >= 0) {
+		return
+	}
+	n, ok := 0, true
+	where := l.Pos(fb.Pos())
+	eachInstr(fb, func(ins ssa.Instruction) {
+		phi, isPhi := ins.(*ssa.Phi)
+		if !isPhi {
+			return
+		}
+		if p, isPtr := phi.Type().Underlying().(*types.Pointer); !isPtr || !isNamed(p.Elem(), modPath, "SymbolTable") {
+			return
+		}
+		for i, e := range phi.Edges {
+			if i >= len(phi.Block().Preds) || !phi.Block().Dominates(phi.Block().Preds[i]) {
+				continue // not the back edge
+			}
+			n++
+			ld, isLoad := e.(*ssa.UnOp)
+			step := false
+			if isLoad && ld.Op == token.MUL {
+				if fa, isFA := isFieldAddrOf(ld.X, modPath, "SymbolTable", fParent); isFA && fa.X == ssa.Value(phi) {
+					step = true
+				}
+			}
+			if !step {
+				ok = false
+				if v, isV := e.(ssa.Instruction); isV {
+					where = l.Pos(v.Pos())
+				}
+			}
+		}
+	})
+	if n == 0 {
+		c.Und(rule, "SymbolTable.findByName | step to the next table", where, "no loop over the chain of tables found")
+		return
+	}
+	c.Check(rule, "SymbolTable.findByName | step to the next table", where, ok, "the table in the `parent` field: every enclosing scope is visited",
+		"the lookup steps to another table than the direct parent: enclosing block tables or the enclosing function's table are skipped, a parameter / local / loop variable that hides an outer literal constant is not seen, and the optimizer substitutes the constant for it (`const x = 1; f := func(x) { return x + 1 }; f(5)` is 2 optimized)")
 }
